@@ -42,7 +42,10 @@ def main():
             "engine": "pyvc",
             "level_claimed": {"category": m.get("category", getattr(mod, "LEVEL", "proof")), "text": m["text"], "design_ref": f"DESIGN.md section 4, {pid}"},
             "level_note": m["note"],
-            "technique": m.get("technique", "contract-based deductive verification: VCs generated from the extracted Python AST (pyvc), discharged by z3 / cvc5"),
+            "technique": m.get("technique", "contract-based deductive verification: VCs generated from the extracted Python AST (pyvc), discharged by z3 / cvc5"
+                               if getattr(mod, "LEVEL", "proof") == "proof" else
+                               "bounded stand-in, not a proof: the real functions are run on an exhaustively / seed-enumerated bounded input space against an executable reference "
+                               "(plus, where listed in the level text, contract obligations generated from the extracted AST by pyvc for the narrow part that is within reach)"),
         })
     man = {
         "version": 1,
